@@ -301,6 +301,50 @@ example : Good [lit "1", lit "2"] st0 := ⟨rfl, rfl, rfl⟩
 example : (writeNode [] 20 (nest 2 (lit "[") (lit "]") 3) st0).st.w.out = lit "[[[]][[[]]" := by decide
 example : rep (lit "[" ++ nestOut (lit "[") (lit "]") 2 ++ lit "]") 2 = lit "[[[]][[[]]" := by decide
 
+/-! ### Loops that nobody breaks: every level runs once per element, at any nesting depth (C03) -/
+
+theorem leaves_raw (reg : Registry) (xs : List Bytes) (c : Bytes) (f : Nat) : Leaves reg xs (.raw c) (f+1) 0 c false := by
+  intro s hg hd
+  rw [raw_emits reg f c s hg.bnd hg.wr]
+  exact ⟨rfl, hd, rfl, ⟨hg.bnd, hg.wr, hg.src⟩⟩
+
+/-- `k` range loops over the same list around the text `c`, each level writing `a` before and `b` after. -/
+def nestFull (a b c : Bytes) : Nat → Node
+  | 0 => .raw c
+  | k+1 => .rloop spec [.raw a, nestFull a b c k, .raw b]
+
+/-- What they write over a list of `m` elements: every level repeats its whole body `m` times. -/
+def fullOut (a b c : Bytes) (m : Nat) : Nat → Bytes
+  | 0 => c
+  | k+1 => rep (a ++ fullOut a b c m k ++ b) m
+
+theorem nestFull_not_condFalse (a b c : Bytes) (k : Nat) : ∀ e, nestFull a b c k ≠ .condFalse e := by
+  intro e; cases k <;> simp [nestFull]
+
+/-- **Nested loops do not disturb one another, at any depth**: `k` nested range loops over a non-empty list each run
+    once per element in every iteration of the loops around them (the output is the `k`-fold repetition), return no
+    error and leave nothing pending. -/
+theorem nestFull_runs_all (reg : Registry) (xs : List Bytes) (x : Bytes) (xs' : List Bytes) (hxs : xs = x :: xs')
+    (a b c : Bytes) (g : Nat) :
+    ∀ k, Leaves reg xs (nestFull a b c k) (3 * k + 3 + g) 0 (fullOut a b c xs.length k) false := by
+  intro k
+  induction k with
+  | zero =>
+    have h3 : 3 * 0 + 3 + g = (g + 2) + 1 := by omega
+    rw [h3]
+    simpa [nestFull, fullOut] using leaves_raw reg xs c (g + 2)
+  | succ k ih =>
+    have hf : 3 * k + 3 + g = (3 * k + g) + 3 := by omega
+    rw [hf] at ih
+    have step := outer_carries_on reg xs x xs' hxs (nestFull a b c k) (nestFull_not_condFalse a b c k) (3 * k + g)
+      (fullOut a b c xs.length k) a b ih
+    have hf2 : 3 * (k + 1) + 3 + g = (3 * k + g) + 6 := by omega
+    rw [hf2]
+    simpa [nestFull, fullOut] using step
+
+example : (writeNode [] 20 (nestFull (lit "[") (lit "]") (lit "x") 2) st0).st.w.out = lit "[[x][x]][[x][x]]" := by decide
+example : fullOut (lit "[") (lit "]") (lit "x") 2 2 = lit "[[x][x]][[x][x]]" := by decide
+
 /-! ### lazybreak at any depth -/
 
 theorem leaves_lazybreak (reg : Registry) (xs : List Bytes) (N f : Nat) :
